@@ -1,38 +1,47 @@
 import OhkamiModel.Drv.Common
 import OhkamiModel.M.Shutdown
+import OhkamiModel.M.WaitGroup
 /-! C18 driver.  Cases:
   {"polls": [null | 0 | 1 | 2 | 3, ...]}  one entry per poll of `until_interrupt`; the number says where the (whole) interrupt
       handler runs relative to that poll: 0 before it, 1 between the CATCH load and the waker swap, 2 between the swap and the
-      re-check, 3 after it returned; null = no interrupt around this poll (the next poll is then a reactor wake)
-  {"wg": ["add" | "done" | "poll", ...]}  operations on a wait group -/
+      re-check, 3 after it returned; null = no interrupt around this poll (the next poll is then a reactor wake);
+      optional "conn": [bool, ...]: a connection is waiting to be accepted when that poll begins
+  {"wg": ["add" | "done" | "drop" | "poll" | "poll@n", ...]}  operations on a wait group; poll@n: the oldest live session ends at the n-th touch of the waker inside that poll -/
 open Lean Ohkami.Shutdown2 Drv
 
 namespace DrvC18
 
-def runH (s : St) : St := ((step true s .handler).bind fun s => (step true s .handler).bind fun s => step true s .handler).getD s
-def stepP (s : St) : St := (step true s .poller).getD s
+def runH (s : St) : St := ((step true true s .handler).bind fun s => (step true true s .handler).bind fun s => step true true s .handler).getD s
+def stepP (s : St) : St := (step true true s .poller).getD s
 
-/-- one poll, with the handler run at `at` ; returns the state when the poll has returned (pending or returnedNone) -/
-def onePoll (s : St) (at_ : Option Nat) : St :=
+/-- one poll, with the handler run at `at` and, if `conn`, a connection waiting when the poll begins; returns the state when the poll has
+    returned (pending, returnedNone, or p0 again: a connection was accepted) and whether it accepted -/
+def onePoll (s : St) (at_ : Option Nat) (conn : Bool) : St × Bool :=
   let s := if at_ = some 0 then runH s else s
+  let s := if conn then (step true true s .arrive).getD s else s
+  let s := stepP s                                           -- p0: look at CATCH, poll `accept()`
+  if s.ppc = .returnedNone then (s, false) else
+  if s.ppc = .p0 then ((if at_ = some 3 then runH s else s), true) else
   let s := stepP s                                           -- p1: load CATCH
-  if s.ppc = .returnedNone then s else
+  if s.ppc = .returnedNone then (s, false) else
   let s := if at_ = some 1 then runH s else s
   let s := stepP s                                           -- p2: publish the waker
   let s := if at_ = some 2 then runH s else s
   let s := stepP s                                           -- p3: re-check
-  if s.ppc = .returnedNone then s else
-  if at_ = some 3 then runH s else s
+  if s.ppc = .returnedNone then (s, false) else
+  ((if at_ = some 3 then runH s else s), false)
 
-def runPolls : St → List (Option Nat) → List Json → List Json
+def runPolls : St → List (Option Nat × Bool) → List Json → List Json
   | _, [], acc => acc.reverse
-  | s, a :: rest, acc =>
+  | s, (a, conn) :: rest, acc =>
     if s.ppc = .returnedNone then acc.reverse else
-    -- the task is polled because it was woken (by the handler) or by the reactor
+    -- the task is polled because it was woken (by the handler, by a connection) or by the reactor
     let s := if s.ppc = .pending then
-        (if s.wakePending then stepP s else stepP ((step true s .reactor).getD s)) else s
-    let s' := onePoll s a
-    let o := Json.mkObj [("ready_none", s'.ppc == .returnedNone), ("woken", s'.wakePending)]
+        (if s.wakePending then stepP s else stepP ((step true true s .reactor).getD s)) else s
+    let (s', accepted) := onePoll s a conn
+    -- `woken`: the waker this poll used was woken during or after it (the harness clears its flag when the poll begins)
+    let o := if conn then Json.mkObj [("ready_none", s'.ppc == .returnedNone), ("accepted", accepted), ("woken", s'.wakePending)]
+      else Json.mkObj [("ready_none", s'.ppc == .returnedNone), ("woken", s'.wakePending)]
     runPolls s' rest (o :: acc)
 
 def runCase (j : Json) : Except String Json := do
@@ -40,15 +49,24 @@ def runCase (j : Json) : Except String Json := do
   if (jopt c "howl").isSome then return Json.mkObj [("id", j.getObjValD "id"), ("model", Json.null)]      -- the real `howl` under a real signal: judged on the implementation alone
   match jopt c "wg" with
   | some w =>
+    -- the wait group with its wake-up protocol (`Ohkami.WG`): each poll answers ready / woken / whether the session ending inside it fired
     let ops ← (← w.getArr?).toList.mapM fun o => do
       match (← o.getStr?) with
-      | "add" => pure WOp.add | "done" => pure WOp.done | "drop" => pure WOp.done | "poll" => pure WOp.poll
-      | x => throw s!"unmodelled op {x}"
-    return Json.mkObj [("id", j.getObjValD "id"), ("model", Json.mkObj [("polls", Json.arr ((wrun 0 ops).map Json.bool).toArray)])]
+      | "add" => pure Ohkami.WG.Op.add | "done" => pure Ohkami.WG.Op.done | "drop" => pure Ohkami.WG.Op.done | "poll" => pure (Ohkami.WG.Op.poll 0)
+      | x => match (x.dropPrefix? "poll@").bind (·.toString.toNat?) with
+        | some n => pure (Ohkami.WG.Op.poll n)
+        | none => throw s!"unmodelled op {x}"
+    let (polls, fw) := Ohkami.WG.run ⟨0, .idle, false⟩ ops []
+    return Json.mkObj [("id", j.getObjValD "id"), ("model", Json.mkObj [
+      ("polls", Json.arr (polls.map fun (r, wk, f) => Json.mkObj [("ready", r), ("woken", wk), ("fired", f)]).toArray), ("final_woken", fw)])]
   | none =>
     let ps ← (← jarr c "polls").toList.mapM fun p => match p with
       | .null => pure none
       | v => do pure (some (← v.getNat?))
-    return Json.mkObj [("id", j.getObjValD "id"), ("model", Json.mkObj [("polls", Json.arr (runPolls init ps []).toArray)])]
+    let conn : List Bool := match jopt c "conn" with
+      | some (.arr a) => a.toList.map fun x => x.getBool?.toOption.getD false
+      | _ => []
+    let psc := ps.zipIdx.map fun (p, i) => (p, conn.getD i false)
+    return Json.mkObj [("id", j.getObjValD "id"), ("model", Json.mkObj [("polls", Json.arr (runPolls init psc []).toArray)])]
 
 end DrvC18
